@@ -6,6 +6,7 @@ extern crate std;
 use super::*;
 use crate::frame::{BindType, OpCode};
 use crate::verif_common::*;
+use crate::{vassert, vfail};
 use crate::config::Options;
 use alloc::vec::Vec;
 use core::sync::atomic::Ordering;
@@ -74,7 +75,10 @@ pub struct Snap {
     pub queued: usize,
 }
 pub fn snap(ep: &Endpoint, id: u32, stream: Option<&MuxStream>) -> Snap {
-    let g = ep.task.flows.read();
+    snap_t(&ep.task, id, stream)
+}
+pub fn snap_t(task: &TTask, id: u32, stream: Option<&MuxStream>) -> Snap {
+    let g = task.flows.read();
     let mut s = Snap { present: false, kind: 9, credit: 0, finish_sent: false, read_open: false, queued: 0 };
     match g.get(&id) {
         None => {}
@@ -125,10 +129,10 @@ pub fn install_bystander(ep: &Endpoint) -> Bystander {
 }
 pub fn check_bystander(ep: &Endpoint, by: &mut Bystander) {
     let after = snap(ep, ID_B, Some(&by.stream));
-    assert!(after == by.before, "P:C10 a frame addressed to another flow changed the state of a bystander stream");
+    vassert!(after == by.before, "P:C10 a frame addressed to another flow changed the state of a bystander stream");
     match by.stream.rx_frame_rx.try_recv() {
-        Ok(b) => assert!(b.len() == 1 && b[0] == by.byte, "P:C10 a frame addressed to another flow changed the data queued on a bystander stream"),
-        Err(_) => panic!("P:C10 a frame addressed to another flow removed data queued on a bystander stream"),
+        Ok(b) => vassert!(b.len() == 1 && b[0] == by.byte, "P:C10 a frame addressed to another flow changed the data queued on a bystander stream"),
+        Err(_) => vfail!("P:C10 a frame addressed to another flow removed data queued on a bystander stream"),
     }
 }
 fn forget_ep(ep: Endpoint) {
@@ -248,8 +252,8 @@ pub fn react_x(slot: Slot, fk: Fk, bind_on: bool, zero_id: bool, direct: bool) {
     };
     match &r {
         Some(Ok(())) => {}
-        Some(Err(_)) => panic!("P:C10 a well-formed frame made process_frame fail (connection would be torn down)"),
-        None => panic!("P:C10 process_frame blocked on a well-formed frame"),
+        Some(Err(_)) => vfail!("P:C10 a well-formed frame made process_frame fail (connection would be torn down)"),
+        None => vfail!("P:C10 process_frame blocked on a well-formed frame"),
     }
     core::mem::forget(r);
     let o1 = pop_out(&mut ep.tx_msg_rx);
@@ -257,78 +261,78 @@ pub fn react_x(slot: Slot, fk: Fk, bind_on: bool, zero_id: bool, direct: bool) {
     let after = snap(&ep, id, match &handle { Handle::Est(s) => Some(s), _ => None });
     let rst = Out::Frame { op: OpCode::Reset, id };
     // -- generic rules ----------------------------------------------------------------
-    assert!(o2 == Out::Nothing, "P:C10 more than one reply to a single frame");
+    vassert!(o2 == Out::Nothing, "P:C10 more than one reply to a single frame");
     if let Out::Frame { id: oid, .. } = o1 {
-        assert!(oid == id, "P:C10 reply addressed to a flow other than the offending one");
+        vassert!(oid == id, "P:C10 reply addressed to a flow other than the offending one");
     }
-    assert!(o1 != Out::Undecodable, "P:C10 reply is not a decodable frame");
+    vassert!(o1 != Out::Undecodable, "P:C10 reply is not a decodable frame");
     if fk == Fk::Reset {
-        assert!(o1 == Out::Nothing, "P:C10 a Reset was answered (never reply to a Reset)");
+        vassert!(o1 == Out::Nothing, "P:C10 a Reset was answered (never reply to a Reset)");
     }
     // -- the table ------------------------------------------------------------------------
     match (fk, slot) {
         (Fk::Connect, Slot::Absent) if !zero_id => {
-            assert!(o1 == Out::Frame { op: OpCode::Acknowledge, id }, "P:C10 Connect on a free id was not acknowledged");
-            assert!(after.present && after.kind == 1 && after.credit == peer_val, "P:C10 accepted Connect did not establish the flow with the peer's window as credit");
+            vassert!(o1 == Out::Frame { op: OpCode::Acknowledge, id }, "P:C10 Connect on a free id was not acknowledged");
+            vassert!(after.present && after.kind == 1 && after.credit == peer_val, "P:C10 accepted Connect did not establish the flow with the peer's window as credit");
         }
         (Fk::Connect, _) => {
-            assert!(o1 == rst, "P:C10 Connect with id 0 or an id in use was not answered with Reset");
-            assert!(after == before, "P:C10 rejected Connect disturbed the existing flow");
+            vassert!(o1 == rst, "P:C10 Connect with id 0 or an id in use was not answered with Reset");
+            vassert!(after == before, "P:C10 rejected Connect disturbed the existing flow");
         }
         (Fk::Ack, Slot::Absent) | (Fk::Ack, Slot::BindRequested) => {
-            assert!(o1 == rst, "P:C10 Acknowledge on an unknown flow / pending bind was not answered with Reset");
-            assert!(after == before, "P:C10 bogus Acknowledge changed the slot");
+            vassert!(o1 == rst, "P:C10 Acknowledge on an unknown flow / pending bind was not answered with Reset");
+            vassert!(after == before, "P:C10 bogus Acknowledge changed the slot");
         }
         (Fk::Ack, Slot::Requested) => {
-            assert!(o1 == Out::Nothing, "P:C10 Acknowledge of our Connect was answered");
-            assert!(after.present && after.kind == 1 && after.credit == peer_val, "P:C10 Acknowledge of our Connect did not establish the flow with the peer's window as credit");
+            vassert!(o1 == Out::Nothing, "P:C10 Acknowledge of our Connect was answered");
+            vassert!(after.present && after.kind == 1 && after.credit == peer_val, "P:C10 Acknowledge of our Connect did not establish the flow with the peer's window as credit");
         }
         (Fk::Ack, _) => {
-            assert!(o1 == Out::Nothing, "P:C10 Acknowledge on an established flow was answered");
-            assert!(after.credit == before.credit.wrapping_add(peer_val) && after.finish_sent == before.finish_sent && after.read_open == before.read_open && after.queued == before.queued,
+            vassert!(o1 == Out::Nothing, "P:C10 Acknowledge on an established flow was answered");
+            vassert!(after.credit == before.credit.wrapping_add(peer_val) && after.finish_sent == before.finish_sent && after.read_open == before.read_open && after.queued == before.queued,
                 "P:C10 Acknowledge did not add exactly its count to the send credit");
         }
         (Fk::Reset, _) => {
-            assert!(!after.present, "P:C10 Reset did not release the flow");
+            vassert!(!after.present, "P:C10 Reset did not release the flow");
         }
         (Fk::Finish, Slot::Absent) => {
-            assert!(o1 == rst, "P:C10 Finish on an unknown flow was not answered with Reset");
+            vassert!(o1 == rst, "P:C10 Finish on an unknown flow was not answered with Reset");
         }
         (Fk::Finish, Slot::Requested) => {
-            assert!(o1 == rst && !after.present, "P:C10 Finish in reply to Connect must reset and release the flow");
+            vassert!(o1 == rst && !after.present, "P:C10 Finish in reply to Connect must reset and release the flow");
         }
         (Fk::Finish, Slot::BindRequested) => {
-            assert!(o1 == Out::Nothing && !after.present, "P:C10 Finish on a pending bind must release it without a reply");
+            vassert!(o1 == Out::Nothing && !after.present, "P:C10 Finish on a pending bind must release it without a reply");
         }
         (Fk::Finish, _) => {
-            assert!(o1 == Out::Nothing, "P:C10 Finish on an established flow was answered");
-            assert!(after.present && !after.read_open && after.credit == before.credit && after.finish_sent == before.finish_sent && after.queued == before.queued,
+            vassert!(o1 == Out::Nothing, "P:C10 Finish on an established flow was answered");
+            vassert!(after.present && !after.read_open && after.credit == before.credit && after.finish_sent == before.finish_sent && after.queued == before.queued,
                 "P:C10 Finish must close only the inbound direction");
         }
         (Fk::Push, Slot::EstRoom) => {
-            assert!(o1 == Out::Nothing && after.queued == before.queued + 1 && after.credit == before.credit && after.present, "P:C10 Push within the window was not queued on its flow");
+            vassert!(o1 == Out::Nothing && after.queued == before.queued + 1 && after.credit == before.credit && after.present, "P:C10 Push within the window was not queued on its flow");
         }
         (Fk::Push, Slot::EstFull) => {
             // window overrun: only the offending flow is reset (no Reset if we already finished)
-            assert!(!after.present, "P:C10 window overrun did not close the offending flow");
-            assert!(o1 == rst || (before.finish_sent && o1 == Out::Nothing), "P:C10 window overrun was not answered with a Reset of the offending flow");
+            vassert!(!after.present, "P:C10 window overrun did not close the offending flow");
+            vassert!(o1 == rst || (before.finish_sent && o1 == Out::Nothing), "P:C10 window overrun was not answered with a Reset of the offending flow");
         }
         (Fk::Push, _) => {
             // absent, requested, bind-requested, or after the peer's own Finish
-            assert!(o1 == rst, "P:C10 Push on a flow that cannot take data was not answered with Reset");
-            assert!(after == before, "P:C10 bogus Push changed the slot");
+            vassert!(o1 == rst, "P:C10 Push on a flow that cannot take data was not answered with Reset");
+            vassert!(after == before, "P:C10 bogus Push changed the slot");
         }
         (Fk::Bind, _) => {
             if bind_on {
-                assert!(o1 == Out::Nothing, "P:C10 Bind request was answered by the connection task although binds are enabled");
+                vassert!(o1 == Out::Nothing, "P:C10 Bind request was answered by the connection task although binds are enabled");
             } else {
-                assert!(o1 == rst, "P:C10 Bind request was not rejected with Reset although binds are disabled");
+                vassert!(o1 == rst, "P:C10 Bind request was not rejected with Reset although binds are disabled");
             }
-            assert!(after == before, "P:C10 Bind request changed a stream slot");
+            vassert!(after == before, "P:C10 Bind request changed a stream slot");
         }
         (Fk::Datagram, _) => {
-            assert!(o1 == Out::Nothing, "P:C10 Datagram was answered");
-            assert!(after == before, "P:C10 Datagram changed a stream slot");
+            vassert!(o1 == Out::Nothing, "P:C10 Datagram was answered");
+            vassert!(after == before, "P:C10 Datagram changed a stream slot");
         }
     }
     check_bystander(&ep, &mut by);
@@ -386,3 +390,651 @@ h!(c10_datagram_absent, 8, react(Slot::Absent, Fk::Datagram, false, false));
 h!(c10_datagram_est, 8, react(Slot::EstRoom, Fk::Datagram, false, false));
 h!(c10_datagram_zero, 8, react(Slot::Absent, Fk::Datagram, false, true));
 
+
+// =======================================================================================
+// C02-D: a Push is appended to its own flow's FIFO, intact and after what was already queued
+// =======================================================================================
+fn d_push_order() {
+    let mut ep = endpoint(small_options(), KRng::fixed([1, 2, 3, 4]));
+    let mut by = install_bystander(&ep);
+    let mut st = install_established(&ep, ID_A, kani::any());
+    let first: [u8; 1] = kani::any();
+    vassert!(queue_inbound(&ep, ID_A, &first), "P:C02 dispatch into an empty queue failed");
+    let p = leak2(kani::any());
+    let r = now_or_never(ep.task.process_frame(Frame::new_push_owned(ID_A, Bytes::from_static(&p[..])), false));
+    vassert!(matches!(r, Some(Ok(()))), "P:C10 Push within the window made process_frame fail or block");
+    core::mem::forget(r);
+    vassert!(pop_out(&mut ep.tx_msg_rx) == Out::Nothing, "P:C03 a Push within the window was answered");
+    match st.rx_frame_rx.try_recv() {
+        Ok(b) => vassert!(b.len() == 1 && b[0] == first[0], "P:C02 earlier data was reordered or corrupted by a later Push"),
+        Err(_) => vfail!("P:C02 earlier data disappeared"),
+    }
+    match st.rx_frame_rx.try_recv() {
+        Ok(b) => vassert!(b.len() == 2 && b[0] == p[0] && b[1] == p[1], "P:C02 the Push payload was not delivered intact to its flow"),
+        Err(_) => vfail!("P:C02 the Push payload was not queued on its flow"),
+    }
+    vassert!(st.rx_frame_rx.try_recv().is_err(), "P:C02 a Push was delivered more than once");
+    check_bystander(&ep, &mut by);
+    kani::cover!(true, "dispatch evaluated");
+    core::mem::forget((st, by));
+    forget_ep(ep);
+}
+h!(c02_d_push_order, 8, d_push_order());
+
+// =======================================================================================
+// C02-S: the sender task moves exactly the head of the outbound FIFO into the sink
+// =======================================================================================
+fn s_sink_step(ready: Step) {
+    let mut ep = endpoint(small_options(), KRng::fixed([1, 2, 3, 4]));
+    let a = leak2(kani::any());
+    let b = leak2(kani::any());
+    ep.task.tx_msg_tx.send(Message::Binary(Bytes::from_static(&a[..]))).ok();
+    ep.task.tx_msg_tx.send(Message::Binary(Bytes::from_static(&b[..]))).ok();
+    ep.task.ws.lock().ready = ready;
+    let w = counting_waker();
+    let mut cx = Context::from_waker(&w);
+    let r = ep.task.poll_reserve_space_queue_message(&mut cx, &mut ep.tx_msg_rx);
+    let sent = ep.task.ws.lock().sent_len;
+    match (&r, ready) {
+        (Poll::Ready(Ok(())), Step::Ok) => {
+            vassert!(sent == 1 && ep.tx_msg_rx.len() == 1, "P:C02 one sender step did not move exactly one message");
+            let g = ep.task.ws.lock();
+            match &g.sent[0] {
+                Some(Message::Binary(x)) => vassert!(x.len() == 2 && x[0] == a[0] && x[1] == a[1], "P:C02 the sender step reordered or modified the outbound queue"),
+                _ => vfail!("P:C02 the sender step sent something that was not at the head of the queue"),
+            }
+            drop(g);
+            // second step: the second message, after the first
+            let r2 = ep.task.poll_reserve_space_queue_message(&mut cx, &mut ep.tx_msg_rx);
+            vassert!(matches!(r2, Poll::Ready(Ok(()))), "P:C02 second sender step failed");
+            let g = ep.task.ws.lock();
+            match &g.sent[1] {
+                Some(Message::Binary(x)) => vassert!(g.sent_len == 2 && x[0] == b[0] && x[1] == b[1], "P:C02 the second message did not follow the first"),
+                _ => vfail!("P:C02 the second message was lost"),
+            }
+            drop(g);
+            core::mem::forget(r2);
+        }
+        (Poll::Pending, Step::Pending) => {
+            vassert!(sent == 0 && ep.tx_msg_rx.len() == 2, "P:C02 a message was taken from the queue although the sink was not ready");
+            vassert!(ep.task.ws.lock().sink_waker_parked, "P:C08 sender step is pending without the sink holding its waker");
+        }
+        (Poll::Ready(Err(_)), Step::Err) => {
+            vassert!(sent == 0, "P:C02 a message was sent into a failed sink");
+        }
+        _ => vfail!("P:C02 sender step result does not match the sink's readiness"),
+    }
+    kani::cover!(true, "sender step evaluated");
+    core::mem::forget(r);
+    forget_ep(ep);
+}
+h!(c02_s_sink_ready, 8, s_sink_step(Step::Ok));
+h!(c02_s_sink_pending, 8, s_sink_step(Step::Pending));
+h!(c02_s_sink_error, 8, s_sink_step(Step::Err));
+
+// =======================================================================================
+// C06: abort is clean, ids are released, nothing leaks into a re-used id
+// =======================================================================================
+/// The application drops a stream: the connection task learns it through the dropped-flows
+/// channel, removes the slot, tells the peer (Reset unless Finish was already sent).
+fn f_c06_local_drop() {
+    let mut ep = endpoint(small_options(), KRng::fixed([1, 2, 3, 4]));
+    let mut by = install_bystander(&ep);
+    let st = install_established(&ep, ID_A, kani::any());
+    let finished: bool = kani::any();
+    if finished {
+        vassert!(st.do_shutdown().is_some(), "P:C05 shutdown failed on a live connection");
+        vassert!(pop_out(&mut ep.tx_msg_rx) == Out::Frame { op: OpCode::Finish, id: ID_A }, "P:C05 shutdown did not send Finish");
+    }
+    let n0 = ep.task.flows.read().len();
+    drop(st);
+    {
+        let fut = ep.task.process_dropped_flows_task(&mut ep.dropped_flows_rx);
+        let mut fut = core::mem::ManuallyDrop::new(fut);
+        let p = unsafe { Pin::new_unchecked(&mut *fut) };
+        vassert!(poll_once(p).is_pending(), "P:C08 the dropped-flows loop ended although the multiplexor is alive");
+    }
+    let o1 = pop_out(&mut ep.tx_msg_rx);
+    if finished {
+        vassert!(o1 == Out::Nothing, "P:C06 a stream that was shut down cleanly and dropped was reset");
+    } else {
+        vassert!(o1 == Out::Frame { op: OpCode::Reset, id: ID_A }, "P:C06 dropping a stream that was not shut down did not tell the peer (Reset)");
+    }
+    vassert!(pop_out(&mut ep.tx_msg_rx) == Out::Nothing, "P:C06 more than one frame on drop");
+    vassert!(!ep.task.flows.read().contains_key(&ID_A), "P:C06 flow id not released after the stream was dropped");
+    vassert!(ep.task.flows.read().len() == n0 - 1, "P:C06 the endpoint still holds state for a dropped stream");
+    check_bystander(&ep, &mut by);
+    kani::cover!(true, "drop evaluated");
+    core::mem::forget(by);
+    forget_ep(ep);
+}
+use core::pin::Pin;
+/// The peer aborts (Reset): our application reads what was delivered, then EOF; writes fail
+/// with BrokenPipe; the id is free.
+fn f_c06_peer_reset_app_view() {
+    use tokio::io::{AsyncBufRead, AsyncWrite};
+    let mut ep = endpoint(small_options(), KRng::fixed([1, 2, 3, 4]));
+    let mut by = install_bystander(&ep);
+    let mut st = install_established(&ep, ID_A, kani::any());
+    let d: [u8; 1] = kani::any();
+    vassert!(queue_inbound(&ep, ID_A, &d), "P:C02 dispatch failed");
+    let n0 = ep.task.flows.read().len();
+    let r = now_or_never(ep.task.process_frame(Frame::new_reset(ID_A), false));
+    vassert!(matches!(r, Some(Ok(()))), "P:C10 Reset made process_frame fail or block");
+    core::mem::forget(r);
+    vassert!(pop_out(&mut ep.tx_msg_rx) == Out::Nothing, "P:C10 a Reset was answered");
+    vassert!(!ep.task.flows.read().contains_key(&ID_A) && ep.task.flows.read().len() == n0 - 1, "P:C06 flow id not released after the peer's Reset");
+    let w = counting_waker();
+    let mut cx = Context::from_waker(&w);
+    // queued data first ...
+    match Pin::new(&mut st).poll_fill_buf(&mut cx) {
+        Poll::Ready(Ok(b)) => vassert!(b.len() == 1 && b[0] == d[0], "P:C06 data delivered before the abort is not readable afterwards"),
+        _ => vfail!("P:C06 read after the peer's abort failed or blocked"),
+    }
+    Pin::new(&mut st).consume(1);
+    // ... then end-of-stream
+    match Pin::new(&mut st).poll_fill_buf(&mut cx) {
+        Poll::Ready(Ok(b)) => vassert!(b.is_empty(), "P:C06 no end-of-stream after the peer's abort"),
+        _ => vfail!("P:C06 read after the peer's abort blocks instead of reporting end-of-stream"),
+    }
+    // writes fail
+    let x: [u8; 1] = kani::any();
+    match Pin::new(&mut st).poll_write(&mut cx, &x) {
+        Poll::Ready(Err(e)) => vassert!(e.kind() == std::io::ErrorKind::BrokenPipe, "P:C06 write after the peer's abort failed with something other than BrokenPipe"),
+        _ => vfail!("P:C06 write after the peer's abort did not fail"),
+    }
+    check_bystander(&ep, &mut by);
+    kani::cover!(true, "abort evaluated");
+    core::mem::forget((st, by));
+    forget_ep(ep);
+}
+/// After a flow was closed (by the peer's Reset or by a local drop), the peer re-opens the same
+/// id with new parameters: nothing of the old stream (credit, closed flags, buffered data,
+/// counters) is visible in the new one, and dropping the stale handle does not disturb it.
+fn f_c06_reuse(closed_by_peer: bool) {
+    let mut ep = endpoint(small_options(), KRng::fixed([1, 2, 3, 4]));
+    let mut st = install_established(&ep, ID_A, kani::any());
+    let d: [u8; 1] = kani::any();
+    vassert!(queue_inbound(&ep, ID_A, &d), "P:C02 dispatch failed");
+    if kani::any() {
+        st.finish_sent.store(true, Ordering::Relaxed);
+    }
+    st.psh_recvd_since = 1;
+    if closed_by_peer {
+        ep.task.close_flow(ID_A, true);
+    } else {
+        ep.task.close_flow(ID_A, false);
+    }
+    let _ = pop_out(&mut ep.tx_msg_rx);
+    vassert!(!ep.task.flows.read().contains_key(&ID_A), "P:C06 flow id not released");
+    let rw: u32 = kani::any();
+    let r = now_or_never(ep.task.con_recv_new_stream(ID_A, Bytes::new(), kani::any(), rw));
+    vassert!(matches!(r, Some(Ok(()))), "P:C06 the released id cannot be re-opened");
+    core::mem::forget(r);
+    vassert!(pop_out(&mut ep.tx_msg_rx) == Out::Frame { op: OpCode::Acknowledge, id: ID_A }, "P:C06 re-opening a released id was not acknowledged");
+    let ns = ep.mux.con_recv_stream_rx.lock().try_recv();
+    match &ns {
+        Ok(s2) => {
+            vassert!(s2.flow_id == ID_A && s2.psh_send_remaining.load(Ordering::Relaxed) == rw, "P:C06 credit of the old stream leaked into the new one");
+            vassert!(!s2.finish_sent.load(Ordering::Relaxed), "P:C06 closed flag of the old stream leaked into the new one");
+            vassert!(s2.buf.is_empty() && s2.rx_frame_rx.len() == 0 && s2.psh_recvd_since == 0, "P:C06 buffered data / counters of the old stream leaked into the new one");
+            let after = snap(&ep, ID_A, Some(s2));
+            vassert!(after.present && after.kind == 1 && after.read_open && after.credit == rw && !after.finish_sent, "P:C06 the re-opened flow is not a fresh established flow");
+        }
+        Err(_) => vfail!("P:C06 the re-opened stream was not delivered to the application"),
+    }
+    kani::cover!(true, "re-open evaluated");
+    core::mem::forget(ns);
+    core::mem::forget(st);
+    forget_ep(ep);
+}
+h!(c06_local_drop, 8, f_c06_local_drop());
+h!(c06_peer_reset_app_view, 8, f_c06_peer_reset_app_view());
+h!(c06_reuse_after_peer_reset, 8, f_c06_reuse(true));
+h!(c06_reuse_after_local_close, 8, f_c06_reuse(false));
+
+// =======================================================================================
+// C04: the acknowledgement threshold of every new stream is reachable: 1 <= threshold <= the
+// window this side advertised, for every accepted Options pair and every peer window
+// =======================================================================================
+fn f_c04_threshold(via_ack: bool) {
+    let rwnd: u32 = kani::any();
+    let thr: u32 = kani::any();
+    let peer_rwnd: u32 = kani::any();
+    kani::assume(rwnd >= 1 && thr >= 1 && peer_rwnd >= 1);
+    let opts = small_options().rwnd(rwnd).default_rwnd_threshold(thr);
+    let mut ep = endpoint(opts, KRng::fixed([1, 2, 3, 4]));
+    let stream = if via_ack {
+        let mut rx = install_requested(&ep, ID_A);
+        let r = ep.task.ack_recv_new_stream(ID_A, peer_rwnd);
+        vassert!(r.is_ok(), "P:C07 Acknowledge of our Connect failed");
+        core::mem::forget(r);
+        match rx.try_recv() {
+            Ok(Some(s)) => s,
+            _ => vfail!("P:C07 Acknowledge of our Connect did not hand the stream to the requester"),
+        }
+    } else {
+        let r = now_or_never(ep.task.con_recv_new_stream(ID_A, Bytes::new(), 1, peer_rwnd));
+        vassert!(matches!(r, Some(Ok(()))), "P:C07 Connect was not accepted");
+        core::mem::forget(r);
+        let got = ep.mux.con_recv_stream_rx.lock().try_recv();
+        match got {
+            Ok(s) => s,
+            Err(_) => vfail!("P:C07 accepted stream not delivered"),
+        }
+    };
+    vassert!(stream.rwnd_threshold >= 1, "P:C04 acknowledgement threshold of 0");
+    vassert!(stream.rwnd_threshold <= rwnd, "P:C04 acknowledgement threshold exceeds the window advertised to the peer: the peer runs out of credit before an Acknowledge is due (deadlock)");
+    vassert!(stream.psh_send_remaining.load(Ordering::Relaxed) == peer_rwnd, "P:C03 initial send credit is not the window the peer advertised");
+    vassert!(stream.rx_frame_rx.len() == 0, "P:C07 new stream has queued data");
+    kani::cover!(thr > rwnd, "?threshold option larger than own window");
+    kani::cover!(peer_rwnd < thr && peer_rwnd < rwnd, "?peer window smallest");
+    kani::cover!(true, "threshold evaluated");
+    core::mem::forget(stream);
+    forget_ep(ep);
+}
+h!(c04_threshold_con_recv, 8, f_c04_threshold(false));
+h!(c04_threshold_ack_recv, 8, f_c04_threshold(true));
+
+// =======================================================================================
+// C07: stream opening
+// =======================================================================================
+/// Check the Connect frame of one attempt and return the proposed id.
+fn check_connect_attempt(rx: &mut mpsc::UnboundedReceiver<Message>, task: &TTask, host: &[u8; 2], port: u16) -> u32 {
+    let m = pop_out_bytes(rx);
+    let id = match &m {
+        Some(b) => {
+            vassert!(b[0] == 0x70, "P:C07 a stream request did not emit a Connect frame");
+            let id = be32(&b[..], 1);
+            vassert!(id != 0, "P:C07 flow id 0 proposed");
+            vassert!(id != ID_A, "P:C07 proposed a flow id that is already in use");
+            vassert!(be32(&b[..], 5) == 2, "P:C07 Connect does not advertise this endpoint's rwnd");
+            vassert!(be16(&b[..], 9) == port, "P:C07 Connect carries the wrong port");
+            vassert!(b.len() == 13 && b[11] == host[0] && b[12] == host[1], "P:C07 Connect carries the wrong host bytes");
+            id
+        }
+        None => vfail!("P:C07 stream request is pending without having sent a Connect"),
+    };
+    core::mem::forget(m);
+    vassert!(pop_out(rx) == Out::Nothing, "P:C07 more than one frame per attempt");
+    let s = snap_t(task, id, None);
+    vassert!(s.present && s.kind == 0, "P:C07 no pending-request slot under the proposed id");
+    id
+}
+/// Requester: `new_stream_channel` with a solver-chosen RNG and one live flow in the table.
+/// `answers`: 0 = the peer acknowledges the first attempt; k >= 1 = the peer rejects k
+/// attempts in a row (k == max_flow_id_retries).  The peer's answers are applied with the
+/// functions `process_frame` dispatches to (`ack_recv_new_stream` / `close_flow(.., true)`;
+/// the dispatch itself is decided by C10's ack_requested / reset_requested rows).
+fn f_c07_request(rejects: usize) {
+    let retries = if rejects == 0 { 2 } else { rejects };
+    let opts = small_options().max_flow_id_retries(retries);
+    // scripted RNG: 0 and the live id must be skipped (the choice over ALL draw sequences is
+    // decided separately by c07_id_alloc; concrete ids keep the table lookups foldable here)
+    let mut ep = endpoint(opts, KRng::fixed([0, ID_A, ID_C, ID_C + 1]));
+    let live = install_established(&ep, ID_A, 1);
+    let host = leak2(kani::any());
+    let port: u16 = kani::any();
+    let fut = ep.mux.new_stream_channel(&host[..], port);
+    let mut fut = core::mem::ManuallyDrop::new(fut);
+    vassert!(poll_once(unsafe { Pin::new_unchecked(&mut *fut) }).is_pending(), "P:C07 stream request resolved before the peer answered");
+    let id1 = check_connect_attempt(&mut ep.tx_msg_rx, &ep.task, host, port);
+    vassert!(id1 == ID_C, "P:C07 id allocation did not skip 0 / the id in use");
+    vassert!(ep.task.flows.read().len() == 2, "P:C07 a stream request created more than one slot");
+    if rejects == 0 {
+        let w: u32 = kani::any();
+        let r = ep.task.ack_recv_new_stream(id1, w);
+        vassert!(r.is_ok(), "P:C07 Acknowledge of our Connect failed");
+        core::mem::forget(r);
+        match poll_once(unsafe { Pin::new_unchecked(&mut *fut) }) {
+            Poll::Ready(Ok(s)) => {
+                vassert!(s.flow_id == id1 && s.psh_send_remaining.load(Ordering::Relaxed) == w, "P:C07 the requester's stream does not carry the acknowledged id / the peer's window as credit");
+                let st = snap(&ep, id1, Some(&s));
+                vassert!(st.present && st.kind == 1, "P:C07 acknowledged request did not become an established flow");
+                core::mem::forget(s);
+            }
+            _ => vfail!("P:C07 acknowledged stream request did not produce a stream"),
+        }
+        vassert!(pop_out(&mut ep.tx_msg_rx) == Out::Nothing, "P:C07 acknowledged request sent another frame");
+    } else {
+        ep.task.close_flow(id1, true);
+        let mut last = id1;
+        if rejects >= 2 {
+            vassert!(poll_once(unsafe { Pin::new_unchecked(&mut *fut) }).is_pending(), "P:C07 rejected requester did not retry");
+            let id2 = check_connect_attempt(&mut ep.tx_msg_rx, &ep.task, host, port);
+            vassert!(!ep.task.flows.read().contains_key(&id1) || id2 == id1, "P:C06 rejected attempt left its slot behind");
+            ep.task.close_flow(id2, true);
+            last = id2;
+        }
+        match poll_once(unsafe { Pin::new_unchecked(&mut *fut) }) {
+            Poll::Ready(Err(e)) => {
+                vassert!(matches!(e, Error::FlowIdRejected), "P:C07 rejected requester failed with something other than FlowIdRejected");
+                core::mem::forget(e);
+            }
+            _ => vfail!("P:C07 requester did not give up after max_flow_id_retries rejected attempts"),
+        }
+        vassert!(pop_out(&mut ep.tx_msg_rx) == Out::Nothing, "P:C07 requester sent another Connect after giving up");
+        vassert!(!ep.task.flows.read().contains_key(&last) && ep.task.flows.read().len() == 1, "P:C06 rejected request left its slot behind");
+    }
+    let a = snap(&ep, ID_A, Some(&live));
+    vassert!(a.present && a.kind == 1 && a.credit == 1, "P:C07 opening a stream disturbed a live flow");
+    kani::cover!(true, "request evaluated");
+    core::mem::forget(live);
+    forget_ep(ep);
+}
+/// Flow id allocation over ALL draw sequences of the RNG (up to RNG_DRAWS draws): never 0,
+/// never an id in use, exactly one new slot.
+fn f_c07_id_alloc() {
+    let ep = endpoint(small_options(), KRng::any());
+    let live = install_established(&ep, ID_A, 1);
+    let (tx, rx) = oneshot::channel();
+    let id = ep.mux.insert_new_flow(FlowSlot::Requested(tx));
+    vassert!(id != 0, "P:C07 flow id 0 proposed");
+    vassert!(id != ID_A, "P:C07 proposed a flow id that is already in use");
+    vassert!(ep.task.flows.read().len() == 2 && ep.task.flows.read().contains_key(&id) && ep.task.flows.read().contains_key(&ID_A), "P:C07 allocation did not add exactly one slot");
+    kani::cover!(ep.mux.rng.lock().used >= 2, "?a collision / zero draw was skipped");
+    kani::cover!(true, "allocation evaluated");
+    core::mem::forget((live, rx));
+    forget_ep(ep);
+}
+h!(c07_id_alloc, 8, f_c07_id_alloc());
+h!(c07_request_acked, 8, f_c07_request(0));
+h!(c07_request_rejected_r1, 8, f_c07_request(1));
+h!(c07_request_rejected_r2, 8, f_c07_request(2));
+
+/// Acceptor: the application sees exactly the requested host bytes and port, credit = the
+/// requester's window, and the Acknowledge (with our own window) is queued before delivery.
+fn f_c07_accept() {
+    let mut ep = endpoint(small_options(), KRng::fixed([1, 2, 3, 4]));
+    let host = leak2(kani::any());
+    let port: u16 = kani::any();
+    let rw: u32 = kani::any();
+    let id: u32 = ID_A;
+    // (what process_frame(Connect) forwards to; the forwarding itself is C10's connect_* rows)
+    let r = now_or_never(ep.task.con_recv_new_stream(id, Bytes::from_static(&host[..]), port, rw));
+    vassert!(matches!(r, Some(Ok(()))), "P:C10 Connect made the connection task fail or block");
+    core::mem::forget(r);
+    let m = pop_out_bytes(&mut ep.tx_msg_rx);
+    match &m {
+        Some(b) => vassert!(b.len() == 9 && b[0] == 0x71 && be32(&b[..], 1) == id && be32(&b[..], 5) == 2, "P:C07 Connect not acknowledged with this endpoint's rwnd"),
+        None => vfail!("P:C07 Connect not acknowledged"),
+    }
+    core::mem::forget(m);
+    let fut = ep.mux.accept_stream_channel();
+    let s = now_or_never(fut);
+    match s {
+        Some(Ok(s)) => {
+            vassert!(s.flow_id == id && s.dest_port == port, "P:C07 accepted stream has the wrong id / port");
+            vassert!(s.dest_host.len() == 2 && s.dest_host[0] == host[0] && s.dest_host[1] == host[1], "P:C07 accepted stream has the wrong host bytes");
+            vassert!(s.psh_send_remaining.load(Ordering::Relaxed) == rw, "P:C07 acceptor's credit is not the requester's window");
+            core::mem::forget(s);
+        }
+        _ => vfail!("P:C07 accepted stream not available to the application"),
+    }
+    vassert!(ep.mux.con_recv_stream_rx.lock().try_recv().is_err(), "P:C07 one Connect produced two streams");
+    kani::cover!(true, "accept evaluated");
+    forget_ep(ep);
+}
+h!(c07_accept, 8, f_c07_accept());
+
+// =======================================================================================
+// C11: datagram service
+// =======================================================================================
+fn f_c11_send<const H: usize, const P: usize>() {
+    let mut ep = endpoint(small_options(), KRng::fixed([1, 2, 3, 4]));
+    let host: [u8; H] = kani::any();
+    let data: [u8; P] = kani::any();
+    let (id, port): (u32, u16) = (kani::any(), kani::any());
+    let d = Datagram { flow_id: id, target_host: Bytes::copy_from_slice(&host), target_port: port, data: Bytes::copy_from_slice(&data) };
+    let r = now_or_never(ep.mux.send_datagram(d));
+    match &r {
+        Some(Ok(())) => {
+            vassert!(H <= 255, "P:C11 a datagram with a host longer than 255 octets was accepted");
+            let m = pop_out_bytes(&mut ep.tx_msg_rx);
+            match &m {
+                Some(b) => {
+                    vassert!(b.len() == 8 + H + P && b[0] == 0x76 && be32(&b[..], 1) == id, "P:C11 datagram frame header wrong");
+                    vassert!(b[5] as usize == H && be16(&b[..], 6) == port, "P:C11 datagram host length / port wrong");
+                    vassert!(bytes_eq(&b[8..8 + H], &host) && bytes_eq(&b[8 + H..], &data), "P:C11 datagram host / payload changed");
+                }
+                None => vfail!("P:C11 accepted datagram was not transmitted"),
+            }
+            core::mem::forget(m);
+        }
+        Some(Err(e)) => {
+            vassert!(H > 255, "P:C11 a datagram with a host of at most 255 octets was refused");
+            vassert!(matches!(e, Error::DatagramHostTooLong), "P:C11 over-long host refused with the wrong error");
+        }
+        None => vfail!("P:C11 send_datagram blocked"),
+    }
+    vassert!(pop_out(&mut ep.tx_msg_rx) == Out::Nothing, "P:C11 send_datagram had another effect on the wire");
+    kani::cover!(true, "send evaluated");
+    core::mem::forget(r);
+    forget_ep(ep);
+}
+h!(c11_send_h0_p0, 8, f_c11_send::<0, 0>());
+h!(c11_send_h1_p1, 8, f_c11_send::<1, 1>());
+h!(c11_send_h2_p3, 8, f_c11_send::<2, 3>());
+h!(c11_send_h255_p1, 260, f_c11_send::<255, 1>());
+h!(c11_send_h256_p1, 260, f_c11_send::<256, 1>());
+
+/// Receive path from every buffer occupancy (capacity 2): 0 or 1 queued -> appended at the
+/// tail; full -> dropped, queue unchanged; always Ok, never pending; stream slots untouched.
+fn f_c11_recv<const P: usize>(occupancy: usize) {
+    let mut ep = endpoint(small_options(), KRng::fixed([1, 2, 3, 4]));
+    let mut by = install_bystander(&ep);
+    let mut k = 0;
+    while k < occupancy {
+        let pre = Frame::new_datagram_owned(100 + k as u32, Bytes::new(), 1, Bytes::new());
+        let r = now_or_never(ep.task.process_frame(pre, false));
+        vassert!(matches!(r, Some(Ok(()))), "P:C11 datagram made process_frame fail");
+        core::mem::forget(r);
+        k += 1;
+    }
+    let host = leak1(kani::any());
+    let data: [u8; P] = kani::any();
+    let (id, port): (u32, u16) = (kani::any(), kani::any());
+    let f = Frame::new_datagram_owned(id, Bytes::from_static(&host[..]), port, Bytes::copy_from_slice(&data));
+    let r = now_or_never(ep.task.process_frame(f, false));
+    vassert!(matches!(r, Some(Ok(()))), "P:C11 a datagram terminated the connection or blocked the connection task");
+    core::mem::forget(r);
+    vassert!(pop_out(&mut ep.tx_msg_rx) == Out::Nothing, "P:C11 a datagram was answered");
+    // drain in order
+    let mut k = 0;
+    while k < occupancy && k < 2 {
+        let got = now_or_never(ep.mux.get_datagram());
+        match got {
+            Some(Ok(d)) => vassert!(d.flow_id == 100 + k as u32, "P:C11 datagrams delivered out of order"),
+            _ => vfail!("P:C11 queued datagram lost"),
+        }
+        k += 1;
+    }
+    let got = ep.mux.datagram_rx.lock().try_recv();
+    if occupancy < 2 {
+        match &got {
+            Ok(d) => {
+                vassert!(d.flow_id == id && d.target_port == port, "P:C11 delivered datagram has the wrong flow id / port");
+                vassert!(d.target_host.len() == 1 && d.target_host[0] == host[0] && bytes_eq(&d.data, &data), "P:C11 delivered datagram has the wrong host / payload");
+            }
+            Err(_) => vfail!("P:C11 datagram lost although the buffer had room"),
+        }
+        vassert!(ep.mux.datagram_rx.lock().try_recv().is_err(), "P:C11 datagram delivered twice");
+    } else {
+        vassert!(got.is_err(), "P:C11 datagram accepted beyond the buffer size");
+    }
+    check_bystander(&ep, &mut by);
+    kani::cover!(true, "receive evaluated");
+    core::mem::forget(got);
+    core::mem::forget(by);
+    forget_ep(ep);
+}
+h!(c11_recv_empty_p0, 8, f_c11_recv::<0>(0));
+h!(c11_recv_empty_p1, 8, f_c11_recv::<1>(0));
+h!(c11_recv_one_p3, 8, f_c11_recv::<3>(1));
+h!(c11_recv_full_p2, 8, f_c11_recv::<2>(2));
+
+/// Sender / receiver agreement: what `send_datagram` transmits is a frame the peer's decoder
+/// accepts as a Datagram (a short payload must not tear the connection down: an undecodable
+/// message ends the connection, see `process_message`).
+fn f_c11_agreement<const P: usize>() {
+    let mut a = endpoint(small_options(), KRng::fixed([1, 2, 3, 4]));
+    let data: [u8; P] = kani::any();
+    let id: u32 = kani::any();
+    let d = Datagram { flow_id: id, target_host: Bytes::new(), target_port: kani::any(), data: Bytes::copy_from_slice(&data) };
+    let r = now_or_never(a.mux.send_datagram(d));
+    vassert!(matches!(r, Some(Ok(()))), "P:C11 send_datagram refused a valid datagram");
+    core::mem::forget(r);
+    match a.tx_msg_rx.try_recv() {
+        Ok(Message::Binary(m)) => {
+            // copy to a stack array so that the opcode octet stays a constant for the decoder
+            let mut buf = [0u8; 16];
+            vassert!(m.len() == 8 + P, "P:C11 datagram frame has the wrong length");
+            let mut i = 0;
+            while i < 8 + P {
+                buf[i] = m[i];
+                i += 1;
+            }
+            vassert!(buf[0] == 0x76, "P:C11 datagram frame has the wrong opcode");
+            buf[0] = 0x76;
+            let f = Frame::try_from(&buf[..8 + P]);
+            match &f {
+                Ok(f) => vassert!(f.id == id && f.opcode() == OpCode::Datagram, "P:C11 transmitted datagram decodes to another frame"),
+                Err(_) => vfail!("P:C11 a datagram produced by send_datagram is rejected by the receiving endpoint's decoder (the connection would end)"),
+            }
+            core::mem::forget(f);
+        }
+        _ => vfail!("P:C11 accepted datagram was not transmitted"),
+    }
+    kani::cover!(true, "agreement evaluated");
+    forget_ep(a);
+}
+h!(c11_agreement_p0, 20, f_c11_agreement::<0>());
+h!(c11_agreement_p1, 20, f_c11_agreement::<1>());
+h!(c11_agreement_p3, 20, f_c11_agreement::<3>());
+h!(c11_agreement_p4, 20, f_c11_agreement::<4>());
+
+// =======================================================================================
+// C15: bind requests
+// =======================================================================================
+fn bind_opts() -> Options {
+    small_options().bind_buffer_size(2)
+}
+/// A bind request with another bind request (of this endpoint) pending at the same time: the
+/// peer first answers the OTHER one, then this one; each gets exactly its own answer, once.
+fn f_c15_requester(this_ok: bool, other_ok: bool) {
+    // scripted RNG: 0 and the id in use are skipped (all draw sequences: c07_id_alloc)
+    let mut ep = endpoint(small_options(), KRng::fixed([0, ID_B, ID_C, 9]));
+    let mut other = install_bind_requested(&ep, ID_B);
+    let h1 = leak1(kani::any());
+    let p1: u16 = kani::any();
+    let dgram: bool = kani::any();
+    let f1 = ep.mux.request_bind(&h1[..], p1, if dgram { BindType::Datagram } else { BindType::Stream });
+    let mut f1 = core::mem::ManuallyDrop::new(f1);
+    vassert!(poll_once(unsafe { Pin::new_unchecked(&mut *f1) }).is_pending(), "P:C15 bind request resolved before any answer");
+    let m1 = pop_out_bytes(&mut ep.tx_msg_rx);
+    let id1 = match &m1 {
+        Some(a) => {
+            vassert!(a.len() == 9 && a[0] == 0x75 && a[5] == (if dgram { 3 } else { 1 }) && be16(&a[..], 6) == p1 && a[8] == h1[0], "P:C15 Bind frame does not carry the requested type / port / host");
+            be32(&a[..], 1)
+        }
+        None => vfail!("P:C15 bind request did not send a Bind frame"),
+    };
+    core::mem::forget(m1);
+    vassert!(id1 == ID_C, "P:C15 bind request uses id 0 or an id in use");
+    vassert!(pop_out(&mut ep.tx_msg_rx) == Out::Nothing, "P:C15 more than one frame per bind request");
+    // the peer answers the other request first
+    let a2 = if other_ok { Frame::new_finish(ID_B) } else { Frame::new_reset(ID_B) };
+    let r = now_or_never(ep.task.process_frame(a2, false));
+    vassert!(matches!(r, Some(Ok(()))), "P:C10 bind answer made process_frame fail");
+    core::mem::forget(r);
+    vassert!(poll_once(unsafe { Pin::new_unchecked(&mut *f1) }).is_pending(), "P:C15 a bind request was resolved by the answer to another one");
+    match other.try_recv() {
+        Ok(v) => vassert!(v == other_ok, "P:C15 bind request resolved with the wrong verdict"),
+        Err(_) => vfail!("P:C15 answered bind request did not resolve"),
+    }
+    let a1 = if this_ok { Frame::new_finish(id1) } else { Frame::new_reset(id1) };
+    let r = now_or_never(ep.task.process_frame(a1, false));
+    vassert!(matches!(r, Some(Ok(()))), "P:C10 bind answer made process_frame fail");
+    core::mem::forget(r);
+    match poll_once(unsafe { Pin::new_unchecked(&mut *f1) }) {
+        Poll::Ready(Ok(v)) => vassert!(v == this_ok, "P:C15 bind request resolved with the wrong verdict"),
+        _ => vfail!("P:C15 answered bind request did not resolve"),
+    }
+    vassert!(pop_out(&mut ep.tx_msg_rx) == Out::Nothing, "P:C15 a bind answer was answered");
+    vassert!(ep.task.flows.read().len() == 0, "P:C15 flow ids of resolved bind requests are not released");
+    kani::cover!(true, "requester evaluated");
+    core::mem::forget(other);
+    forget_ep(ep);
+}
+h!(c15_requester_ok_ok, 8, f_c15_requester(true, true));
+h!(c15_requester_ok_rej, 8, f_c15_requester(true, false));
+h!(c15_requester_rej_ok, 8, f_c15_requester(false, true));
+
+/// A pending bind request when the connection winds down resolves with `false`.
+fn f_c15_teardown() {
+    let mut ep = endpoint(small_options(), KRng::fixed([ID_C, 2, 3, 4]));
+    let h1 = leak1(kani::any());
+    let f1 = ep.mux.request_bind(&h1[..], 1, BindType::Stream);
+    let mut f1 = core::mem::ManuallyDrop::new(f1);
+    vassert!(poll_once(unsafe { Pin::new_unchecked(&mut *f1) }).is_pending(), "P:C15 bind request resolved before any answer");
+    let slot = { ep.task.flows.write().drain().next() };
+    match slot {
+        Some((id, s)) => ep.task.close_flow_local(s, id, true),
+        None => vfail!("P:C15 no slot for a pending bind request"),
+    }
+    match poll_once(unsafe { Pin::new_unchecked(&mut *f1) }) {
+        Poll::Ready(Ok(v)) => vassert!(!v, "P:C15 bind request resolved `true` by teardown"),
+        Poll::Ready(Err(e)) => {
+            vassert!(matches!(e, Error::Closed), "P:C15 bind request failed with something other than Closed at teardown");
+            core::mem::forget(e);
+        }
+        Poll::Pending => vfail!("P:C15 pending bind request not resolved at teardown"),
+    }
+    kani::cover!(true, "teardown evaluated");
+    forget_ep(ep);
+}
+h!(c15_teardown, 8, f_c15_teardown());
+
+/// Responder: the application is shown exactly the request; its decision produces exactly one
+/// frame for that id: Finish for accept, Reset for reject or drop.
+fn f_c15_responder(decision: u8) {
+    let mut ep = endpoint(bind_opts(), KRng::fixed([1, 2, 3, 4]));
+    let host = leak1(kani::any());
+    let (id, port): (u32, u16) = (kani::any(), kani::any());
+    let dgram: bool = kani::any();
+    let bt = if dgram { BindType::Datagram } else { BindType::Stream };
+    let r = now_or_never(ep.task.process_frame(Frame::new_bind(id, bt, &host[..], port), false));
+    vassert!(matches!(r, Some(Ok(()))), "P:C10 Bind made process_frame fail or block");
+    core::mem::forget(r);
+    vassert!(pop_out(&mut ep.tx_msg_rx) == Out::Nothing, "P:C15 the connection task answered a Bind itself although binds are enabled");
+    let req = now_or_never(ep.mux.next_bind_request());
+    let req = match req {
+        Some(Ok(q)) => q,
+        _ => vfail!("P:C15 bind request not shown to the application"),
+    };
+    vassert!(req.flow_id() == id && req.port() == port && req.bind_type() == bt, "P:C15 application sees the wrong flow id / port / type");
+    vassert!(req.host().len() == 1 && req.host()[0] == host[0], "P:C15 application sees the wrong host bytes");
+    match decision {
+        0 => {
+            vassert!(req.reply(true).is_ok(), "P:C15 reply(true) failed on a live connection");
+            drop(req);
+            vassert!(pop_out(&mut ep.tx_msg_rx) == Out::Frame { op: OpCode::Finish, id }, "P:C15 accepting a bind did not send Finish for its id");
+        }
+        1 => {
+            vassert!(req.reply(false).is_ok(), "P:C15 reply(false) failed on a live connection");
+            drop(req);
+            vassert!(pop_out(&mut ep.tx_msg_rx) == Out::Frame { op: OpCode::Reset, id }, "P:C15 rejecting a bind did not send Reset for its id");
+        }
+        _ => {
+            drop(req);
+            vassert!(pop_out(&mut ep.tx_msg_rx) == Out::Frame { op: OpCode::Reset, id }, "P:C15 dropping a bind request did not send Reset for its id");
+        }
+    }
+    vassert!(pop_out(&mut ep.tx_msg_rx) == Out::Nothing, "P:C15 a bind request was answered more than once");
+    vassert!(ep.mux.bnd_request_rx.as_ref().unwrap().lock().try_recv().is_err(), "P:C15 one Bind frame produced two requests");
+    kani::cover!(true, "responder evaluated");
+    forget_ep(ep);
+}
+h!(c15_responder_accept, 8, f_c15_responder(0));
+h!(c15_responder_reject, 8, f_c15_responder(1));
+h!(c15_responder_drop, 8, f_c15_responder(2));
